@@ -26,7 +26,8 @@ type PageObs struct {
 	Index                  int
 	Name                   string
 	Units                  []UnitObs
-	MarginText             string
+	MarginText             string            // text of the @bottom-center box
+	Margins                map[string]string // text of every generated margin box by at-keyword (without the @)
 	CounterPage, CounterOf int // parsed "a/b" (-1 when absent / unparsable)
 	RootBottom             Fl // bottom border edge of the root element box, relative to the content box top
 }
@@ -66,8 +67,16 @@ func Observe(pages []*bo.PageBox) []PageObs {
 		}
 		top := Fl(p.ContentBoxY())
 		for _, c := range p.Children {
-			if _, isM := c.(*bo.MarginBox); isM {
-				o.MarginText += textOf(c)
+			if m, isM := c.(*bo.MarginBox); isM {
+				if m.AtKeyword == "@bottom-center" {
+					o.MarginText += textOf(c)
+				}
+				if m.IsGenerated {
+					if o.Margins == nil {
+						o.Margins = map[string]string{}
+					}
+					o.Margins[strings.TrimPrefix(m.AtKeyword, "@")] += textOf(c)
+				}
 				continue
 			}
 			if !bo.BlockT.IsInstance(c) || c.Box().Element == nil {
